@@ -65,11 +65,13 @@ def check_output(rec, sub, out, ref, sm, m, L, want, n):
         rec.fail("time", sub, "%r != %r" % (pp.time, ref.time))
     if pp.geo_lo != [ref.geo_lo[cx], ref.geo_lo[cy]] or pp.geo_hi != [ref.geo_hi[cx], ref.geo_hi[cy]]:
         rec.fail("geometry", sub, "%r %r" % (pp.geo_lo, pp.geo_hi))
-    if pp.finest != L:
-        rec.fail("levels", sub, "%d levels, expected %d" % (pp.finest + 1, L + 1))
+    # levels 0..L; trailing levels that the plane does not meet may be left out
+    met = [lv for lv in range(L + 1) if meets(ref, lv, n, m, sm)]
+    if pp.finest > L or pp.finest < (max(met) if met else 0):
+        rec.fail("levels", sub, "%d levels, the plane meets levels %s of the %d selected" % (pp.finest + 1, met, L + 1))
         return
     pos = sm.pos_of(m)
-    for lv in range(L + 1):
+    for lv in range(pp.finest + 1):
         pl = pp.levels[lv]
         if pp.dx[lv] != [ref.dx[lv][cx], ref.dx[lv][cy]] or pp.domain[lv] != [ref.domain[lv][cx], ref.domain[lv][cy]]:
             rec.fail("level_geometry", sub, "level %d: dx %r domain %r" % (lv, pp.dx[lv], pp.domain[lv]))
